@@ -395,6 +395,41 @@ def partial_xfrms(prs, rnd):
     return n
 
 
+def strip_optional_attributes(prs, rnd):
+    """Pre-state: the deck as a frugal producer writes it - optional attributes (those the schema gives a default or none at
+    all) dropped from a random half of the elements python-pptx has classes for.  Each part must validate as well as before,
+    else its change is undone.  A reading accessor that 'writes the default back' shows on such a deck only."""
+    from lxml import etree
+    from pptx.oxml.xmlchemy import BaseOxmlElement
+    from vlib import instgen, xsdkit
+
+    m, n = xsdkit.model(), 0
+    for part in prs.part.package.iter_parts():
+        root = getattr(part, "_element", None)
+        if root is None or etree.QName(root).namespace not in (xsdkit.NS["p"], xsdkit.NS["c"]):
+            continue
+        before = xsdkit.validate_part(etree.tostring(root))[0]
+        undo = []
+        for el in root.iter():
+            if not isinstance(el, BaseOxmlElement) or not el.attrib or rnd.random() < 0.3:
+                continue
+            t = instgen.declared_type(el)
+            if t is None or not m.is_complex(t):
+                continue
+            decl = m.attributes(t)
+            for name in list(el.attrib):
+                d = decl.get(name)
+                if d is not None and d[1] != "required" and not name.startswith("{") and name not in ("id", "idx", "type", "name") and rnd.random() < 0.7:
+                    undo.append((el, name, el.get(name)))
+                    del el.attrib[name]
+        if undo and xsdkit.validate_part(etree.tostring(root))[0] != before:
+            for el, name, val in undo:
+                el.set(name, val)
+        else:
+            n += len(undo)
+    return n
+
+
 def strip_notes_master_ref(data):
     """Pre-state (on package bytes): the presentation part no longer refers to the notes master (relationship and
     p:notesMasterIdLst removed); the master stays reachable from the notes slides only.  -> bytes, or None when the deck has
@@ -835,6 +870,24 @@ def run_unit(unit, tier, seed, acc):
                         run.prs.slides[0].notes_slide.notes_text_frame.text = "notes of generated deck %d" % i
                     if i % 4 == 3 and partial_xfrms(run.prs, env.rng("C12x", seed, i)):
                         acc.count("generated_decks_with_half_transforms")
+                    if (i % 5 == 4 or i % 4 == 1) and not any(True for _ in _charts(run.prs)):
+                        # these two pre-states are about charts: the deck gets one (with legend, title and data labels) if it has none
+                        from pptx.chart.data import CategoryChartData
+                        from pptx.enum.chart import XL_CHART_TYPE
+
+                        cd = CategoryChartData()
+                        cd.categories = ["a", "b", "c"]
+                        cd.add_series("S1", (1, 2, 3))
+                        sl = run.prs.slides[0] if len(run.prs.slides) else run.prs.slides.add_slide(run.prs.slide_layouts[6])
+                        ch = sl.shapes.add_chart([XL_CHART_TYPE.COLUMN_CLUSTERED, XL_CHART_TYPE.LINE_MARKERS, XL_CHART_TYPE.PIE][i % 3], 0, 0, 4000000, 3000000, cd).chart
+                        ch.has_legend, ch.has_title = True, True
+                        ch.plots[0].has_data_labels = True
+                        ch.plots[0].data_labels.number_format = "0.00"
+                        if i % 3 != 2:  # (a pie has no axes)
+                            ch.value_axis.tick_labels.number_format = "0.0"
+                            ch.category_axis.tick_labels.offset = 50
+                    if i % 5 == 4 and strip_optional_attributes(run.prs, env.rng("C12a", seed, i)):
+                        acc.count("generated_decks_with_optional_attributes_stripped")
                     if i % 4 == 1 and link_chart_titles(run.prs):
                         acc.count("generated_decks_with_cell_linked_chart_titles")
                     buf = io.BytesIO()
